@@ -39,6 +39,7 @@ import (
 	str "github.com/echovault/sugardb/internal/modules/string"
 	"github.com/echovault/sugardb/internal/raft"
 	"github.com/echovault/sugardb/internal/snapshot"
+	"github.com/tidwall/resp"
 	"io"
 	"log"
 	"net"
@@ -531,8 +532,13 @@ func (server *SugarDB) handleConnection(conn net.Conn) {
 		}
 	}()
 
+	// Commands are framed by the RESP protocol, not by network reads: one read may carry several
+	// pipelined commands and one command may arrive in several reads. The reader is kept for the whole
+	// connection so that bytes it has buffered beyond the current command are not lost.
+	reader := resp.NewReader(r)
+
 	for {
-		message, err := internal.ReadMessage(r)
+		value, _, err := reader.ReadValue()
 
 		if err != nil && errors.Is(err, io.EOF) {
 			// Connection closed
@@ -540,6 +546,18 @@ func (server *SugarDB) handleConnection(conn net.Conn) {
 			break
 		}
 
+		if err != nil {
+			log.Println(err)
+			// The stream cannot be re-synchronised after a malformed frame: report the error and close.
+			var netErr net.Error
+			if !errors.As(err, &netErr) {
+				message := strings.NewReplacer("\r", " ", "\n", " ").Replace(err.Error())
+				_, _ = w.Write([]byte(fmt.Sprintf("-Error %s\r\n", message)))
+			}
+			break
+		}
+
+		message, err := value.MarshalRESP()
 		if err != nil {
 			log.Println(err)
 			break
